@@ -1,0 +1,8 @@
+// +build verif
+
+package hyper
+
+/*@
+func QueryProof.Verify
+  props C12
+@*/
